@@ -1020,8 +1020,11 @@ func (p *udpConnPool) close() error {
 	for {
 		select {
 		case connWithTime := <-p.idleConns:
-			if connWithTime != nil && connWithTime.conn != nil {
-				p.discard(connWithTime.conn)
+			// Idle sockets are registered live sockets: the loop above closed them.
+			// Close only what is (unexpectedly) still registered, never twice.
+			if connWithTime != nil && connWithTime.conn != nil && p.unregisterLiveConn(connWithTime.conn) {
+				_ = connWithTime.conn.Close()
+				p.releaseActiveSlot()
 			}
 		default:
 			return nil
